@@ -182,10 +182,18 @@ func plainSpelling(h string, name string) bool {
 }
 
 type pResult struct {
+	feats       map[string]int
 	key, detail string
 	routedN     int
 	rejectedN   int
 	requests    int
+}
+
+func (r *pResult) feat(f string) {
+	if r.feats == nil {
+		r.feats = map[string]int{}
+	}
+	r.feats[f]++
 }
 
 func runProxyCase(c PCase) pResult {
@@ -330,8 +338,26 @@ func (w *pWorld) request(st PStep, si int, r *pResult, fail func(string, string,
 		fail("request-routed-more-than-once", fmt.Sprintf("Host %q: %+v", st.Host, calls), si)
 		return
 	}
+	switch {
+	case strings.HasPrefix(st.Host, "["):
+		r.feat("host:ipv6-literal")
+	case strings.Count(st.Host, ":") > 1:
+		r.feat("host:several-colons")
+	case strings.Contains(st.Host, ":"):
+		r.feat("host:with-port")
+	case st.Host == "":
+		r.feat("host:empty")
+	case st.Host != strings.ToLower(st.Host):
+		r.feat("host:upper-or-mixed-case")
+	}
+	r.feat("request:" + st.Kind)
 	if len(calls) == 0 {
 		r.rejectedN++
+		for i := range pNames {
+			if cur := w.owner[i]; cur != nil && doms[pFull(i)] && (cur.status != repos.HTTPDomainMappingStatusActive || cur.expired) {
+				r.feat("rejected:inactive-or-expired-owner")
+			}
+		}
 		// liveness for the plain spellings: name / name:port of a live, active, online repository mapping
 		for i := range pNames {
 			cur := w.owner[i]
@@ -363,6 +389,10 @@ func (w *pWorld) request(st PStep, si int, r *pResult, fail func(string, string,
 			}
 			if call.client == cur.client && u.Host == fmt.Sprintf("%s:%d", cur.host, cur.port) {
 				ok = true
+				r.feat("routed:repository-owner")
+				if _, has := w.regOwn[i]; has {
+					r.feat("routed:repository-owner-over-legacy-entry")
+				}
 			}
 			why = append(why, fmt.Sprintf("repository owner of %s = client %d %s:%d", pFull(i), cur.client, cur.host, cur.port))
 			continue
@@ -370,12 +400,14 @@ func (w *pWorld) request(st PStep, si int, r *pResult, fail func(string, string,
 		if cl, has := w.regOwn[i]; has {
 			if call.client == cl && u.Host == fmt.Sprintf("%s:%d", targetHost(cl), regPort(cl)) {
 				ok = true
+				r.feat("routed:legacy-registry")
 			}
 			why = append(why, fmt.Sprintf("registry owner of %s = client %d", pFull(i), cl))
 		}
 		if cl, has := w.cldOwn[i]; has {
 			if call.client == cl && u.Host == fmt.Sprintf("%s:%d", targetHost(cl), cloudPort(cl)) {
 				ok = true
+				r.feat("routed:cloud-control")
 			}
 			why = append(why, fmt.Sprintf("cloud-control owner of %s = client %d", pFull(i), cl))
 		}
@@ -455,6 +487,11 @@ func reportProxy(t vkit.TB, c PCase, r pResult, class string) {
 		return
 	}
 	vkit.Case(class, r.routedN > 0 && r.rejectedN > 0, fmt.Sprintf("%+v", c))
+	for f, n := range r.feats {
+		for i := 0; i < n; i++ {
+			vkit.Class("proxy-feat:" + f)
+		}
+	}
 	vkit.AddExtra("proxy_requests", int64(r.requests))
 	vkit.AddExtra("proxy_requests_routed", int64(r.routedN))
 	vkit.AddExtra("proxy_requests_rejected", int64(r.rejectedN))
